@@ -880,9 +880,16 @@ def check_litnum(R, drv, tier, want=("spec", "panic")):
         def m_is_nan(I, st, a):
             return SBool(z3.fpIsNaN(a[0].fp()))
 
+        def m_is_infinite(I, st, a):
+            return SBool(z3.And(z3.Extract(62, 52, a[0].bits) == 0x7FF, z3.Extract(51, 0, a[0].bits) == 0))
+
+        def m_is_finite(I, st, a):
+            return SBool(z3.Extract(62, 52, a[0].bits) != 0x7FF)
+
         def m_into(I, st, a):
             return SAgg("struct", "ValueWithSpan", {"value": a[0], 0: a[0]})
         pats = [(re.compile(p), f) for p, f in [
+            (r"^core::f64::<impl f64>::is_infinite$", m_is_infinite), (r"^core::f64::<impl f64>::is_finite$", m_is_finite),
             (r"^core::fmt::rt::Argument::<'_>::new_display$", m_new_display), (r"^(core::fmt::|std::fmt::)?Arguments::<'_>::new$", m_args_new),
             (r"^core::fmt::rt::Argument::<'_>::new_debug$", m_new_debug),
             (r"^core::f64::<impl f64>::is_sign_negative$", m_is_sign_negative), (r"^core::f64::<impl f64>::is_nan$", m_is_nan),
@@ -1011,6 +1018,13 @@ def check_litnum(R, drv, tier, want=("spec", "panic")):
         sign = z3.Extract(63, 63, fb) == 1
         nan = z3.fpIsNaN(z3.fpBVToFP(fb, z3.Float64()))
         goal = None
+        if isinstance(v0, SEnum) and v0.ty == "Result" and v0.disc == 1:
+            # an error return is a correct answer only for a value that has no numeric spelling (an infinity or NaN)
+            v, model, dt = kernels.check(e.pc, z3.Extract(62, 52, fb) != 0x7FF)
+            R.q(v, dt)
+            if v != "unsat":
+                R.engine_error(f"K-litnum: translate_literal can return an error for a finite float ({v}); no replay for this exit")
+            continue
         plain = number_of(ex) if ok else None
         if plain is not None and isinstance(plain[0], SFloat):
             d, lg = plain
